@@ -69,6 +69,10 @@ func (w *World) ctl(name string, call func(e gnet.Engine) (res any, err error), 
 	// stopping window as running or stopped (and may fail with any error)
 	order := map[string]int{stEmpty: 0, stBooting: 1, stRunning: 2, stWindow: 3, stStopped: 4}
 	lo, hi := order[before], order[after]
+	if hi < lo {
+		// a refused stop request makes the observed state step back
+		lo, hi = hi, lo
+	}
 	if before == stEmpty {
 		hi = lo // the handle used was the zero value taken before boot
 	}
